@@ -7,6 +7,7 @@ import (
 	"encoding/json"
 	"fmt"
 	"runtime"
+	"runtime/debug"
 	"strings"
 	"sync"
 	"testing"
@@ -296,6 +297,22 @@ func TestC18(t *testing.T) {
 		r.Inflight("interference", c)
 		defer r.InflightDone()
 		data := victim.Data.Expand()
+		// Pooled scratch state (sync.Pool, free lists) is handed from one instance to the next only while no garbage
+		// collection empties the pools and, for per-processor pools, when both run on the same processor. Any GC
+		// schedule and any processor count is a legitimate environment, so the harness picks the one in which reuse
+		// is certain: collector off for the duration of the sequence and, two times out of three, a single processor.
+		runtime.GC()
+		oldGC := debug.SetGCPercent(-1)
+		oldProcs := 0
+		if rapid.IntRange(0, 2).Draw(t, "oneproc") != 0 {
+			oldProcs = runtime.GOMAXPROCS(1)
+		}
+		defer func() {
+			if oldProcs > 0 {
+				runtime.GOMAXPROCS(oldProcs)
+			}
+			debug.SetGCPercent(oldGC)
+		}()
 		st1, err1 := victim.compress(data, victim.Cfg)
 		for _, o := range others {
 			od := o.Data.Expand()
